@@ -252,11 +252,13 @@ pub fn bare_pp(p: Vec<u8>, ext: Option<u16>) -> ParsedPacket {
         offset_additional: None,
         offset_edns: None,
         edns_count: 0,
-        ext_rcode: None,
-        edns_version: None,
+        // with EDNS flags present the rest of the summary is what a parse of a packet with an OPT record leaves:
+        // a non-zero extended rcode, version 0, a large payload size (no header getter may depend on them)
+        ext_rcode: ext.map(|x| ((x >> 4) as u8) | 1),
+        edns_version: ext.map(|_| 0),
         ext_flags: ext,
         maybe_compressed: false,
-        max_payload: 512,
+        max_payload: if ext.is_some() { 4096 } else { 512 },
         cached: None,
     }
 }
